@@ -186,7 +186,13 @@ def tie_deviation(ctx, case, res, J, N):
             if masks is None or A[j] in masks[j] or A[j] not in cands:
                 return False
             n2 = dict(zip(cands, J.verdicts[j]["cand_n2"]))
-            return n2.get(A[j]) == n2.get(r[j])
+            a, b = n2.get(A[j]), n2.get(r[j])
+            if a is None or b is None:
+                return False
+            # equal up to the acceptance budget: |√a − √b| ≤ δ  (decided exactly)
+            from ..oracles import score_ge
+            from fractions import Fraction
+            return score_ge(a, Fraction(0), b, J.delta) and score_ge(b, Fraction(0), a, J.delta)
         i = p.index(r[j], j)
         p[j], p[i] = p[i], p[j]
     return False
@@ -291,9 +297,12 @@ def sspor_part(ctx):
             continue
         ok, cnt = counts_ok(opt, sel, L, N, s) if len(sel) == N else (False, -1)
         if not ok:
+            sig = f"sspor-region-count:{opt}"
+            if tie_deviation(ctx, case, {"ranking": full, "offsets": offs}, J, N):
+                sig = "region-count:supplied-ranking-breaks-an-exact-tie-differently"
             ctx.violation("concrete",
                           f"SSPOR(GQR {opt}): selected sensors {sel} contain {cnt} region sensors (region {L}, N={N}, s={s})",
-                          {"signature": f"sspor-region-count:{opt}", "case": {"X": X.tolist(), "basis": bk, "n_modes": nm, "seed": seed,
+                          {"signature": sig, "case": {"X": X.tolist(), "basis": bk, "n_modes": nm, "seed": seed,
                                                                                "L": L, "N": N, "s": s, "opt": opt, "A": A.tolist()},
                            "observed": sel, "index": idx})
         elif sel != A.tolist()[:N]:
